@@ -272,7 +272,10 @@ def _bound_fact(fa, a, pol, sval, elts) -> bool:
     l, r, op = a.left, a.comparators[0], type(a.ops[0])
 
     def is_len(e):
-        return isinstance(e, ast.Call) and isinstance(e.func, ast.Name) and e.func.id == "len" and len(e.args) == 1 and strip_sites(fa.term_of(e.args[0])) == elts
+        try:
+            return strip_sites(fa.term_of(e)) == ("app", ("global", "builtins.len"), (elts,), ())
+        except AnalysisError:
+            return False
 
     def is_n(e):
         return strip_sites(fa.term_of(e)) == sval
